@@ -1,6 +1,7 @@
 // C03 harness: the shared codec harness (h_codec.cpp: ENC / ENC2 / DEC / REENC / RT on the REAL
 // Message::factory and Message::encode, compiled with ASan + UBSan) plus
 //   ATOI <hex>        fast_atoi<int> on the text (standing UB site F09)          -> OK <value>
+//   DTPARSE ts|time|date <hex>  date_time_parse / time_parse / date_parse on the text -> OK
 //   CHKSUM <mis> <hex> Message::calc_chksum on the bytes at a 16-aligned address + mis -> OK <value>
 //                     (this translation unit is compiled WITH -fsanitize=alignment)
 //   !<case>           run <case> in a forked child and report how it ended:
@@ -34,6 +35,24 @@ void run_case3(const std::string& line, std::ostream& os)
 		const std::string txt(unhex(line.substr(5)));
 		const int v(fast_atoi<int>(txt.c_str()));
 		os << "OK " << v;
+		return;
+	}
+	if (line.compare(0, 8, "DTPARSE ") == 0)
+	{
+		// the date/time parsers of field.hpp on the text: ts = date_time_parse (UTCTimestamp),
+		// time = time_parse(.., true) (UTCTimeOnly), date = date_parse (UTCDateOnly, LocalMktDate, MonthYear)
+		std::istringstream is(line.substr(8));
+		std::string kind, hx;
+		is >> kind >> hx;
+		const std::string txt(unhex(hx));
+		const size_t len(::strlen(txt.c_str()));
+		volatile long long sink(0);	// the result must be used, or the overflow checks are dead code
+		if (kind == "ts") sink = date_time_parse(txt.c_str(), len);
+		else if (kind == "time") sink = time_parse(txt.c_str(), len, true);
+		else if (kind == "date") sink = date_parse(txt.c_str(), len);
+		else { os << "BAD-CASE kind"; return; }
+		(void)sink;
+		os << "OK";
 		return;
 	}
 	if (line.compare(0, 7, "CHKSUM ") == 0)
